@@ -7,6 +7,7 @@ import (
 	"encoding/json"
 	"fmt"
 	"math"
+	"math/rand"
 	"strings"
 
 	"github.com/Azbesciak/RealDecisionMaker/lib/model"
@@ -104,6 +105,16 @@ func init() {
 					fmt.Sprintf("probability %v at position %d fired %d times in %d seeds (outside the 6-sigma band)", p, pos, fires, trials))
 				o.count("frequency-runs")
 			}
+		}
+		// the activation stream is math/rand seeded with biasApplyRandomSeed (values in [0,1), untouched)
+		for _, seed := range []int64{0, 1, 7, 42, 99991, 3726072, -5} {
+			g, ref := seededGen(seed), rand.New(rand.NewSource(seed))
+			same := true
+			for i := 0; i < 5000 && same; i++ {
+				same = g() == ref.Float64()
+			}
+			o.Oracle(Meta{Stage: "activation-stream", Input: J{"seed": seed}, Key: "stream" + fmt.Sprint(seed)}, same,
+				"the seeded generator handed to MakeDecision does not produce the math/rand stream of its seed")
 		}
 		for c := 0; c < n; c++ {
 			o.Cases++
